@@ -321,6 +321,26 @@ def check_normalize_logodds(rep, case):
                   "log_odds(background=%r, base=%r)[%s][%s] = %r which is the UNIFORM-background score; expected log(f/b) = %r" % ((bg, base) + d), case)
         else:
             _viol(rep, "C17 log_odds wrong score", "log_odds(background=%r, base=%r)[%s][%s] = %r, expected %r" % ((bg, base) + d), case)
+    # the matrix returned by log_odds(background) carries THAT background: its p-values are computed under it
+    # (oracle: the core library on the returned cells with the requested background)
+    if bg is not None and not d and all(r is not None for r in gs) and _finite_nonwild(gs):
+        sm = res[1]
+        mn = sum(min(r[:-1]) for r in gs)
+        mx = sum(max(r[:-1]) for r in gs)
+        for q in (0.5, 0.9):
+            sc = rm.f32(mn + (mx - mn) * q)
+            got = call(sm.pvalue, sc)
+            ref = call(vxref.core_meme_pvalue, gs, bgv, protein, sc)
+            if is_exc(ref):
+                rep.machinery("core_meme_pvalue failed: %s" % show(ref))
+                continue
+            if got != ("ok", ref[1]):
+                uni = call(vxref.core_meme_pvalue, gs, ubg, protein, sc)
+                if uni[0] == "ok" and got == ("ok", uni[1]) and uni[1] != ref[1]:
+                    _viol(rep, "C17 log_odds result carries the wrong background",
+                          "log_odds(background=%r).pvalue(%r) = %r is the uniform-background value; under the requested background the core gives %r" % (bg, sc, uni[1], ref[1]), case)
+                else:
+                    _viol(rep, "C17 log_odds result pvalue differs from core", "log_odds(background=%r).pvalue(%r) %s, core library gives %r" % (bg, sc, show(got), ref[1]), case)
     return True
 
 
